@@ -1183,10 +1183,15 @@ fn gen_tx(r: &mut Rng, link: &str) -> String {
             format!("{} {}", p, if resp.is_empty() { "-".into() } else { resp })
         }
         _ => {
-            let style = r.below(4);
+            // packets whose log would only be digested get scripts without faults (short writes and interrupts only):
+            // with faults, which write call meets the fault depends on how a sender groups its writes
+            let big = p.rsplit('x').next().and_then(|n| n.parse::<usize>().ok()).map(|n| n > 3000).unwrap_or(false) && !p.contains('+');
+            let style = if big { 9 } else { r.below(4) };
             let rs: Vec<String> = (0..r.below(50))
                 .map(|_| match (style, r.below(14)) {
                     (0, _) => "w1".to_string(),
+                    (9, 0 | 1) => "~".to_string(),
+                    (9, _) => format!("w{}", 1 + r.below(6)),
                     (_, 0) => "!".into(),
                     (_, 1) => "w0".into(),
                     (_, 2 | 3) => "~".into(),
@@ -1213,6 +1218,16 @@ fn can_log(tx: &[bxcan::Frame]) -> String {
         list(&v, ",")
     } else {
         text::digest(&v)
+    }
+}
+
+/// serial device logs are printed in full up to 8 KiB, so that the driver can evaluate C14 on them when a sender groups
+/// its writes differently from the model
+fn serial_log(b: &[u8]) -> String {
+    if b.len() <= 8192 {
+        text::hex(b)
+    } else {
+        text::log_bytes(b)
     }
 }
 
@@ -1253,7 +1268,7 @@ fn exec_tx(t: &[&str]) -> Option<String> {
             let mut s = Serial::new(Box::new(SerialDev(sh.clone())));
             let rs: Vec<&str> = ps.iter().map(|p| send_res(guard(|| s.try_send_packet(p)))).collect();
             let g = sh.lock().unwrap_or_else(|e| e.into_inner());
-            Some(format!("{}/f{} {}", text::log_bytes(&g.tx), g.flushes, rs.join(",")))
+            Some(format!("{}/f{} {}", serial_log(&g.tx), g.flushes, rs.join(",")))
         }
         _ => None,
     }
@@ -1300,7 +1315,7 @@ fn exec_psend(t: &[&str]) -> Option<String> {
             let sh: Shared = Arc::new(Mutex::new(ByteScript { io_resp: parse_io_resps(resp)?.into_iter().collect(), flush_answers: fl.into_iter().collect(), ..Default::default() }));
             let r = run!(Serial::new(Box::new(SerialDev(sh.clone()))));
             let g = sh.lock().unwrap_or_else(|e| e.into_inner());
-            Some(format!("{}/f{} {} h{}", text::log_bytes(&g.tx), g.flushes, r, calls.get()))
+            Some(format!("{}/f{} {} h{}", serial_log(&g.tx), g.flushes, r, calls.get()))
         }
         _ => None,
     }
